@@ -1,4 +1,5 @@
 CONSTANTS MaxIn = 2  MaxOut = 2
+CONSTANT HtSet <- HtQuick
 SPECIFICATION Spec
 INVARIANTS CommitmentLemma TwoFormsLemma MaskLemma CoinLemma SingleBugLemma ShapeLemma
 PROPERTY Frame
